@@ -30,6 +30,7 @@ def _habutax():
         mods = {n: importlib.import_module('habutax.' + n) for n in ('solver', 'form', 'fields', 'inputs', 'values')}
     finally:
         sys.path.pop(0)
+    common.install_watchdog(mods['solver'])
     return mods
 
 
